@@ -122,6 +122,8 @@ type Program struct {
 	Explicit map[string]bool `json:"explicit,omitempty"`
 	// DefaultM replaces the declared default of the optional integer input field m (YAML text).
 	DefaultM string `json:"default_m,omitempty"`
+	// EnumDefault adds an optional input property `level` (enum_string low/high) with this default text.
+	EnumDefault string `json:"enum_default,omitempty"`
 	// DanglingInputRef makes the type of the input field `nested` refer to an object that is not declared.
 	DanglingInputRef bool `json:"dangling_input_ref,omitempty"`
 }
@@ -417,6 +419,11 @@ func (p *Program) YAML() string {
 		text := rootInputSchema
 		if p.DefaultM != "" {
 			text = strings.Replace(text, `default: "7"`, "default: "+p.DefaultM, 1)
+		}
+		if p.EnumDefault != "" {
+			// one more optional input property, an enumeration of strings with the given default text
+			text = strings.Replace(text, "      properties:\n", "      properties:\n        level:\n          required: false\n          default: "+p.EnumDefault+
+				"\n          type:\n            type_id: enum_string\n            values:\n              low: {}\n              high: {}\n", 1)
 		}
 		if p.DanglingInputRef {
 			text = strings.Replace(text, "id: Nested\n", "id: NoSuchObject\n", 1)
